@@ -427,8 +427,13 @@ class Prober(object):
 
     def _queryFieldDeadEnd(self, name):
         args = self.args_for('query', 'queryFieldDeadEnd', name, [1, 2, 0, 'x', [1, 2]], [1, [1]])
-        return [self._find_call({p: {name: a}}, [{}, {p: {}}])
-                for p in ['a.q', 'sub.k.q'] for a in args]
+        # paths that reach NO value in any document: a field name over an array of scalars, an
+        # index past the end of an array (a path that runs into a scalar reaches the
+        # missing-field candidate since the C01 `deadend` repair, hence is validated)
+        # (the name removed: the filter without the condition — `{p: {}}` is an equality with
+        # the empty sub-document, which nothing meets on such a path)
+        return [self._find_call({p: {name: a}}, [{}])
+                for p in ['loc.q', 'loc.9'] for a in args]
 
     def _queryTop(self, name):
         args = self.args_for('query', 'queryTop', name, [[{'a': 1}], [{'a': {'$gt': 1}}]],
